@@ -167,96 +167,9 @@ func c05(c *core.Check) {
 		}
 		c.Fail("C05-R1", key, pos(c, w.node), "VM field "+w.field+" is written ("+w.how+") while a line is processed and is not known to be fresh, reset, diagnostic or a transparent memo: its value survives into the next line")
 	}
-	// fresh thread
+	threadFreshness(c, "C05-R1", pll)
 	g := pll.Graph()
-	info := pll.Info()
 	execs := g.CallsTo(vmExecute)
-	var threadVar types.Object
-	var newThread, assignVT, assignInput []core.Hit
-	for _, h := range g.Find(func(n ast.Node) bool { _, ok := n.(*ast.AssignStmt); return ok }) {
-		as := h.N.(*ast.AssignStmt)
-		if len(as.Lhs) != 1 || len(as.Rhs) != 1 {
-			continue
-		}
-		rhs := core.Unparen(as.Rhs[0])
-		fresh := false
-		if call, ok := rhs.(*ast.CallExpr); ok && pll.CalleeID(call) == "builtin.new" && strings.HasSuffix(info.TypeOf(call.Args[0]).String(), "vm.thread") {
-			fresh = true
-		}
-		if u, ok := rhs.(*ast.UnaryExpr); ok && u.Op == token.AND {
-			if cl, ok := u.X.(*ast.CompositeLit); ok && strings.HasSuffix(info.TypeOf(cl).String(), "vm.thread") {
-				fresh = true
-			}
-		}
-		if fresh {
-			threadVar = identObj(info, as.Lhs[0])
-			newThread = append(newThread, h)
-		}
-	}
-	for _, h := range g.Find(func(n ast.Node) bool { _, ok := n.(*ast.AssignStmt); return ok }) {
-		as := h.N.(*ast.AssignStmt)
-		if len(as.Lhs) != 1 || len(as.Rhs) != 1 {
-			continue
-		}
-		l := core.PathOf(as.Lhs[0])
-		if l == recvIdent(pll)+".t" && threadVar != nil && identObj(info, as.Rhs[0]) == threadVar {
-			assignVT = append(assignVT, h)
-		}
-		if l == recvIdent(pll)+".input" && identObj(info, as.Rhs[0]) != nil && isParam(pll, identObj(info, as.Rhs[0])) {
-			assignInput = append(assignInput, h)
-		}
-	}
-	if len(execs) == 0 {
-		c.Undecided("C05-R1", processLogLine+"|execute", pos(c, pll.Decl), "no call of execute found")
-	} else {
-		for name, evs := range map[string][]core.Hit{"new thread": newThread, "v.t = thread": assignVT, "v.input = line": assignInput} {
-			tr, found := pathAvoiding(g, nil, core.HitPoints(execs), core.HitPoints(evs))
-			c.Verdict(!found && len(evs) > 0, "C05-R1", processLogLine+"|fresh "+name, pos(c, pll.Decl), "on every path before the first instruction", "an instruction can execute without "+name+" having happened in this call: the previous line's thread state (capture groups, time register, stack, matched flag) or input is reused", tr...)
-		}
-		// execute must be called with the fresh thread
-		for _, e := range execs {
-			call := e.N.(*ast.CallExpr)
-			c.Verdict(len(call.Args) >= 1 && identObj(info, call.Args[0]) == threadVar && threadVar != nil, "C05-R1", processLogLine+"|execute runs on the fresh thread", pos(c, call), "fresh thread passed", "execute is not given the thread created for this line")
-		}
-		// reference-typed thread fields assigned from make()
-		if threadVar != nil {
-			st := threadStruct(c)
-			if st == nil {
-				c.Undecided("C05-R1", "thread struct", "-", "vm.thread not found")
-			} else {
-				for i := 0; i < st.NumFields(); i++ {
-					fld := st.Field(i)
-					switch fld.Type().Underlying().(type) {
-					case *types.Map, *types.Slice, *types.Pointer, *types.Chan:
-					default:
-						continue
-					}
-					okFresh := false
-					var where ast.Node = pll.Decl
-					for _, h := range g.Find(func(n ast.Node) bool { _, ok := n.(*ast.AssignStmt); return ok }) {
-						as := h.N.(*ast.AssignStmt)
-						if len(as.Lhs) == 1 && core.PathOf(as.Lhs[0]) == threadVar.Name()+"."+fld.Name() {
-							where = as
-							if call, ok := core.Unparen(as.Rhs[0]).(*ast.CallExpr); ok && pll.CalleeID(call) == "builtin.make" {
-								okFresh = true
-								if _, found := pathAvoiding(g, nil, core.HitPoints(execs), []core.Point{h.P}); found {
-									okFresh = false
-								}
-							} else {
-								okFresh = false
-								break
-							}
-						}
-					}
-					// a nil slice/map left at its zero value is fresh too, if never assigned
-					if where == ast.Node(pll.Decl) {
-						okFresh = true
-					}
-					c.Verdict(okFresh, "C05-R1", processLogLine+"|fresh thread."+fld.Name(), pos(c, where), "made anew for this line", "the per-line thread's "+fld.Name()+" is not created with make() in this call (taken from the VM or reused): entries written while processing an earlier line are visible to this one")
-				}
-			}
-		}
-	}
 	// reset protocol for terminate
 	termTrue := func(f *core.Func) []ast.Node {
 		var out []ast.Node
@@ -633,4 +546,100 @@ func fieldWriters(c *core.Check, recvSuffix, field string) []string {
 		}
 	}
 	return uniq(out)
+}
+
+// threadFreshness checks that ProcessLogLine creates the per-line thread (and
+// its map/slice fields) anew, and binds v.t and v.input, before the first
+// instruction on every path.
+func threadFreshness(c *core.Check, rule string, pll *core.Func) {
+	// fresh thread
+	g := pll.Graph()
+	info := pll.Info()
+	execs := g.CallsTo(vmExecute)
+	var threadVar types.Object
+	var newThread, assignVT, assignInput []core.Hit
+	for _, h := range g.Find(func(n ast.Node) bool { _, ok := n.(*ast.AssignStmt); return ok }) {
+		as := h.N.(*ast.AssignStmt)
+		if len(as.Lhs) != 1 || len(as.Rhs) != 1 {
+			continue
+		}
+		rhs := core.Unparen(as.Rhs[0])
+		fresh := false
+		if call, ok := rhs.(*ast.CallExpr); ok && pll.CalleeID(call) == "builtin.new" && strings.HasSuffix(info.TypeOf(call.Args[0]).String(), "vm.thread") {
+			fresh = true
+		}
+		if u, ok := rhs.(*ast.UnaryExpr); ok && u.Op == token.AND {
+			if cl, ok := u.X.(*ast.CompositeLit); ok && strings.HasSuffix(info.TypeOf(cl).String(), "vm.thread") {
+				fresh = true
+			}
+		}
+		if fresh {
+			threadVar = identObj(info, as.Lhs[0])
+			newThread = append(newThread, h)
+		}
+	}
+	for _, h := range g.Find(func(n ast.Node) bool { _, ok := n.(*ast.AssignStmt); return ok }) {
+		as := h.N.(*ast.AssignStmt)
+		if len(as.Lhs) != 1 || len(as.Rhs) != 1 {
+			continue
+		}
+		l := core.PathOf(as.Lhs[0])
+		if l == recvIdent(pll)+".t" && threadVar != nil && identObj(info, as.Rhs[0]) == threadVar {
+			assignVT = append(assignVT, h)
+		}
+		if l == recvIdent(pll)+".input" && identObj(info, as.Rhs[0]) != nil && isParam(pll, identObj(info, as.Rhs[0])) {
+			assignInput = append(assignInput, h)
+		}
+	}
+	if len(execs) == 0 {
+		c.Undecided(rule, processLogLine+"|execute", pos(c, pll.Decl), "no call of execute found")
+	} else {
+		for name, evs := range map[string][]core.Hit{"new thread": newThread, "v.t = thread": assignVT, "v.input = line": assignInput} {
+			tr, found := pathAvoiding(g, nil, core.HitPoints(execs), core.HitPoints(evs))
+			c.Verdict(!found && len(evs) > 0, rule, processLogLine+"|fresh "+name, pos(c, pll.Decl), "on every path before the first instruction", "an instruction can execute without "+name+" having happened in this call: the previous line's thread state (capture groups, time register, stack, matched flag) or input is reused", tr...)
+		}
+		// execute must be called with the fresh thread
+		for _, e := range execs {
+			call := e.N.(*ast.CallExpr)
+			c.Verdict(len(call.Args) >= 1 && identObj(info, call.Args[0]) == threadVar && threadVar != nil, rule, processLogLine+"|execute runs on the fresh thread", pos(c, call), "fresh thread passed", "execute is not given the thread created for this line")
+		}
+		// reference-typed thread fields assigned from make()
+		if threadVar != nil {
+			st := threadStruct(c)
+			if st == nil {
+				c.Undecided(rule, "thread struct", "-", "vm.thread not found")
+			} else {
+				for i := 0; i < st.NumFields(); i++ {
+					fld := st.Field(i)
+					switch fld.Type().Underlying().(type) {
+					case *types.Map, *types.Slice, *types.Pointer, *types.Chan:
+					default:
+						continue
+					}
+					okFresh := false
+					var where ast.Node = pll.Decl
+					for _, h := range g.Find(func(n ast.Node) bool { _, ok := n.(*ast.AssignStmt); return ok }) {
+						as := h.N.(*ast.AssignStmt)
+						if len(as.Lhs) == 1 && core.PathOf(as.Lhs[0]) == threadVar.Name()+"."+fld.Name() {
+							where = as
+							if call, ok := core.Unparen(as.Rhs[0]).(*ast.CallExpr); ok && pll.CalleeID(call) == "builtin.make" {
+								okFresh = true
+								if _, found := pathAvoiding(g, nil, core.HitPoints(execs), []core.Point{h.P}); found {
+									okFresh = false
+								}
+							} else {
+								okFresh = false
+								break
+							}
+						}
+					}
+					// a nil slice/map left at its zero value is fresh too, if never assigned
+					if where == ast.Node(pll.Decl) {
+						okFresh = true
+					}
+					c.Verdict(okFresh, rule, processLogLine+"|fresh thread."+fld.Name(), pos(c, where), "made anew for this line", "the per-line thread's "+fld.Name()+" is not created with make() in this call (taken from the VM or reused): entries written while processing an earlier line are visible to this one")
+				}
+			}
+		}
+	}
 }
